@@ -181,47 +181,32 @@ Proof. vm_compute. repeat split; reflexivity. Qed.
    by an error status (the middleware's own fallback WriteHeader then comes too late), a panic
    after a partial response — and every way of producing the body: Write, WriteString, io.Copy /
    io.CopyN / ReadFrom-if-offered from sources that end or fail after any number of bytes, calls
-   that the writer cuts short at any byte.  Every line carries the status the underlying writer
-   committed, and its size plus the bytes accepted by calls that reported an error (u_lost) is
-   the number of body bytes the writer accepted: the fallback error body is counted, for a HEAD
-   request — whose body net/http accepts and drops — the size is 0.  ([head_ok]: a HEAD request
-   is answered through a writer that sends no body, which holds for every net/http writer;
-   [final_codes]: no 1xx informational WriteHeader, which the writer model does not cover.) *)
+   that the writer cuts short at any byte (the client closes the connection in mid-response: the
+   call returns n > 0 together with an error).  Every line carries the status the underlying
+   writer committed, and its size is the number of body bytes the writer accepted — the bytes
+   accepted by a call that also reported an error included (F-C20-6 repaired): the fallback
+   error body is counted, for a HEAD request — whose body net/http accepts and drops — the size
+   is 0.  ([head_ok]: a HEAD request is answered through a writer that sends no body, which
+   holds for every net/http writer; [final_codes]: no 1xx informational WriteHeader, which the
+   writer model does not cover.) *)
 Theorem C20_logged_status_size_exact :
   forall c cs tbl ek rules path ops ret,
   head_ok c = true -> final_codes ops = true ->
   let '(u', _, _, lines) := log_serve c cs tbl ek rules path ops ret uw0 return Prop in
-  forall l, In l lines -> snd (fst l) = client_status u' /\ snd l + u_lost u' = u_size u'.
+  forall l, In l lines -> snd (fst l) = client_status u' /\ snd l = u_size u'.
 Proof. exact logged_exact. Qed.
 Print Assumptions C20_logged_status_size_exact.
 
-(* with all-or-nothing writer failures (a failing Write accepted nothing, a copy is cut at a
-   chunk boundary — and ANY behaviour of the sources) size is the accepted byte count itself *)
-Theorem C20_logged_status_size_exact_all_or_nothing :
-  forall c cs tbl ek rules path ops ret,
-  head_ok c = true -> final_codes ops = true -> clean_cuts ops = true ->
-  let '(u', _, _, lines) := log_serve c cs tbl ek rules path ops ret uw0 return Prop in
-  forall l, In l lines -> snd (fst l) = client_status u' /\ snd l = u_size u'.
-Proof. exact logged_exact_clean. Qed.
-Print Assumptions C20_logged_status_size_exact_all_or_nothing.
-
 (* the same for a whole request through the site, whatever sits between log and the handler
-   (errors directive, header directive) and the server's own fallback included *)
+   (errors directive, header directive) and the server's own fallback included: every line
+   carries the status the client is answered with and the body bytes the connection accepted *)
 Theorem C20_site_logged_exact :
   forall c cs tbl (haserr hdrw : bool) ds path ops ret,
   head_ok c = true -> final_codes ops = true ->
-  let '(u', lines) := site_run c cs tbl haserr hdrw ds path ops ret return Prop in
-  forall l, In l lines -> snd (fst l) = client_status u' /\ snd l + u_lost u' = u_size u'.
-Proof. exact site_run_exact. Qed.
-Print Assumptions C20_site_logged_exact.
-
-Theorem C20_site_logged_exact_all_or_nothing :
-  forall c cs tbl (haserr hdrw : bool) ds path ops ret,
-  head_ok c = true -> final_codes ops = true -> clean_cuts ops = true ->
   let '(st, sz, lines) := site_serve c cs tbl haserr hdrw ds path ops ret return Prop in
   forall l, In l lines -> snd (fst l) = st /\ snd l = sz.
 Proof. exact site_logged_exact. Qed.
-Print Assumptions C20_site_logged_exact_all_or_nothing.
+Print Assumptions C20_site_logged_exact.
 
 (* the former refutation witnesses now log what the client got (F-C20-5: the recorder kept the
    LAST WriteHeader argument; F-C20-2: for HEAD the error body was counted but never sent) *)
@@ -239,62 +224,57 @@ Example C20_site_logged_exact_nonvacuous :
 Proof. vm_compute. repeat split; reflexivity. Qed.
 
 (* a copy whose source fails after 70000 bytes, then a Write: all 70005 bytes are logged; a copy
-   that the writer cuts at byte 40000: the first full chunk (32768) is logged, 7232 are lost *)
+   that the writer cuts at byte 40000 (the Write after it fails on the dead connection): the
+   40000 accepted bytes are logged — the first full chunk and the 7232 bytes of the call that
+   was cut short *)
 Example C20_logged_status_size_exact_nonvacuous :
   site_serve {| w_nethttp := true; w_head := false |} false [] false false
     [ {| d_scope := bs "/"; d_except := [] |} ] (bs "/x") [OB BCopy 70000 true None; OW 5 None] 0%Z
   = (200%Z, 70005, [(0%nat, 200%Z, 70005)]) /\
   site_run {| w_nethttp := true; w_head := false |} false [] false false
     [ {| d_scope := bs "/"; d_except := [] |} ] (bs "/x") [OB BCopy 70000 false (Some 40000); OW 5 None] 0%Z
-  = ({| u_status := Some 200%Z; u_size := 40000; u_lost := 7232; u_dead := true |}, [(0%nat, 200%Z, 32768)]).
+  = ({| u_status := Some 200%Z; u_size := 40000; u_dead := true |}, [(0%nat, 200%Z, 40000)]).
 Proof. vm_compute. split; reflexivity. Qed.
 
 (* ============================ {size} and the bytes the writer accepted ======================== *)
 
-(* FULL statement wanted by the property: {size} = the number of body bytes the underlying writer
-   accepted, for all op sequences including partial transfers.  It is FALSE of the code as it is
-   (F-C20-6): ResponseRecorder.Write adds the count of a call only when the call reported no
-   error, so a Write that the connection cuts short after accepting some bytes counts none of
-   them.  Witness: the client aborts while one 8 MiB Write is in flight — 847721 bytes accepted
-   (the client may have read any part of them), {size} = 0. *)
-Theorem C20_size_counts_accepted_bytes_refuted :
-  exists c ops, head_ok c = true /\ final_codes ops = true /\
-    let '((u, r), _) := run c (uw0, rec0) ops return Prop in logged_size c r < u_size u.
-Proof. exact size_accepted_refuted. Qed.
-Print Assumptions C20_size_counts_accepted_bytes_refuted.
-
-(* Strongest true statement, over ALL op sequences (Write, WriteString, io.Copy / io.CopyN /
-   ReadFrom-if-offered, every source ending or failing after any number of bytes, every call cut
-   short by the writer at any byte, repeated and late WriteHeader calls, panics): the recorded
-   status is the committed one; accepted bytes = {size} + the bytes accepted by calls that
-   reported an error; and when writer-side failures are all-or-nothing — in particular whenever
-   the client reads the whole response, whatever the SOURCES of the transfers do — nothing is
-   lost and {size} is exactly the accepted byte count. *)
-Theorem C20_size_counts_accepted_bytes_partial :
+(* {size} = the number of body bytes the underlying writer accepted, over ALL op sequences
+   (Write, WriteString, io.Copy / io.CopyN / ReadFrom-if-offered, every source ending or failing
+   after any number of bytes, every call cut short by the writer at any byte, repeated and late
+   WriteHeader calls, panics); and the recorded status is the committed one.  F-C20-6 repaired:
+   ResponseRecorder.Write adds the count the underlying writer reported for a call whether or
+   not the call also reported an error, so the bytes the connection accepted from a Write that
+   the client's disconnect cuts short are counted. *)
+Theorem C20_size_counts_accepted_bytes :
   forall c ops, head_ok c = true -> final_codes ops = true ->
   let '((u, r), _) := run c (uw0, rec0) ops return Prop in
-  client_status u = r_status r /\
-  u_size u = logged_size c r + u_lost u /\
-  (clean_cuts ops = true -> u_lost u = 0 /\ u_size u = logged_size c r).
-Proof. exact size_accepted_partial. Qed.
-Print Assumptions C20_size_counts_accepted_bytes_partial.
+  client_status u = r_status r /\ u_size u = logged_size c r.
+Proof. exact size_accepted. Qed.
+Print Assumptions C20_size_counts_accepted_bytes.
 
-Example C20_size_counts_accepted_bytes_partial_nonvacuous :
+(* the former refutation witness — the client aborts while one 8 MiB Write is in flight, 847721
+   bytes accepted: {size} = 847721 (was 0) — followed by a Write on the dead connection; and a
+   script with sources that fail, an empty Write, an empty copy *)
+Example C20_size_counts_accepted_bytes_nonvacuous :
   let c := {| w_nethttp := true; w_head := false |} in
-  let ops := [OWH 200%Z; OB BCopy 100000 true None; OB BWrite 0 false None; OB BCopy 0 true None; OB BCopy 5 false None] in
-  head_ok c = true /\ final_codes ops = true /\ clean_cuts ops = true /\
+  let ops := [OB BWrite 8388608 false (Some 847721); OB BWrite 100 false (Some 0)] in
+  let ops2 := [OWH 200%Z; OB BCopy 100000 true None; OB BWrite 0 false None; OB BCopy 0 true None; OB BCopy 5 false None] in
+  head_ok c = true /\ final_codes ops = true /\ final_codes ops2 = true /\
   run c (uw0, rec0) ops =
-  (({| u_status := Some 200%Z; u_size := 100005; u_lost := 0; u_dead := false |},
+  (({| u_status := Some 200%Z; u_size := 847721; u_dead := true |},
+    {| r_status := 200%Z; r_size := 847721; r_wrote := true |}), false) /\
+  run c (uw0, rec0) ops2 =
+  (({| u_status := Some 200%Z; u_size := 100005; u_dead := false |},
     {| r_status := 200%Z; r_size := 100005; r_wrote := true |}), false).
 Proof. vm_compute. repeat split; reflexivity. Qed.
 
 (* A source that FAILS part-way (upstream reset, file read error, short source of CopyN) is, for
    the writer and the recorder, a source that ends there: the run is the same as with every
-   source ending regularly, and with no writer-side failure {size} is the accepted byte count.
-   (What the seeded change C20-m3 breaks: its ReadFrom drops the count of a transfer whose
-   source reports an error.) *)
+   source ending regularly — whatever the writer does to the calls — and {size} is the accepted
+   byte count.  (What the seeded change C20-m3 breaks: its ReadFrom drops the count of a transfer
+   whose source reports an error.) *)
 Theorem C20_source_failures_lose_nothing :
-  forall c ops, head_ok c = true -> final_codes ops = true -> uncut ops = true ->
+  forall c ops, head_ok c = true -> final_codes ops = true ->
   run c (uw0, rec0) ops = run c (uw0, rec0) (map clear_srcerr ops) /\
   let '((u, r), _) := run c (uw0, rec0) ops return Prop in u_size u = logged_size c r.
 Proof. exact source_failures_lose_nothing. Qed.
@@ -353,35 +333,26 @@ Example C20_vocabulary_functionally_modelled :
   length gen_c20_vocab = 46%nat /\ length (filter (fun p => is_fn (snd p)) dispatch) = 25%nat.
 Proof. vm_compute. split; reflexivity. Qed.
 
-(* ============================ how much an aborted transfer can lose =========================== *)
+(* ============================ aborted transfers ================================================ *)
 
 (* When can {size} and what the client received differ?  Only when the client closes the
    connection before it has read the response: bytes the writer accepted may sit in socket
-   buffers the client never reads ({size} may exceed what was received: inherent), and — the
-   open finding F-C20-6 — the bytes accepted by the call that was cut short are missing from
-   {size}.  On a net/http connection the first failed write makes every later Write fail with 0
-   bytes, so for EVERY script the missing bytes are those of ONE call: at most a whole Write,
-   less than one 32 KiB chunk of a copy; and nothing is missing as long as no call has failed. *)
-Theorem C20_abort_loses_at_most_one_call :
-  forall c ops, w_nethttp c = true -> cuts_within ops = true ->
-  let '((u, r), _) := run c (uw0, rec0) ops return Prop in
-  u_lost u <= max_loss ops /\ (u_dead u = false -> u_lost u = 0).
-Proof. exact abort_loses_one_call. Qed.
-Print Assumptions C20_abort_loses_at_most_one_call.
-
-Example C20_abort_loses_at_most_one_call_nonvacuous :
+   buffers the client never reads ({size} may exceed what was received: inherent).  Nothing the
+   connection accepted is missing from {size}: a copy cut inside its second chunk and the calls
+   after it on the dead connection (net/http: the first failed write makes every later Write fail
+   with 0 bytes) *)
+Example C20_aborted_transfer_counts_accepted :
   let c := {| w_nethttp := true; w_head := false |} in
   let ops := [OW 100000 None; OB BCopy 70000 false (Some 40000); OW 8388608 (Some 0); OW 100 (Some 0)] in
-  cuts_within ops = true /\
   run c (uw0, rec0) ops =
-  (({| u_status := Some 200%Z; u_size := 140000; u_lost := 7232; u_dead := true |},
-    {| r_status := 200%Z; r_size := 132768; r_wrote := true |}), false).
-Proof. vm_compute. split; reflexivity. Qed.
+  (({| u_status := Some 200%Z; u_size := 140000; u_dead := true |},
+    {| r_status := 200%Z; r_size := 140000; r_wrote := true |}), false).
+Proof. vm_compute. reflexivity. Qed.
 
 Example C20_source_failures_lose_nothing_nonvacuous :
   let c := {| w_nethttp := false; w_head := false |} in
   let ops := [OB BCopy 2000 true None; OB BCopy 3 true None] in
-  head_ok c = true /\ final_codes ops = true /\ uncut ops = true /\
+  head_ok c = true /\ final_codes ops = true /\
   snd (fst (run c (uw0, rec0) ops)) = {| r_status := 200%Z; r_size := 2003; r_wrote := true |}.
 Proof. vm_compute. repeat split; reflexivity. Qed.
 
